@@ -258,6 +258,24 @@ def _alphabet():
   return [(g, n, s) for g in PURITY_GENS for n in PURITY_NS for s in PURITY_SEEDS]
 
 
+def _stable(v, depth=0):
+  """repr without memory addresses; numpy generators by their bit-generator state."""
+  import re
+  if depth > 4:
+    return '...'
+  bg = getattr(v, 'bit_generator', None)
+  if bg is not None and hasattr(bg, 'state'):
+    return 'Generator:' + repr(bg.state)
+  if hasattr(v, 'state') and type(v).__module__.startswith('numpy'):
+    return 'BitGenerator:' + repr(v.state)
+  if isinstance(v, dict):
+    return '{' + ','.join(sorted('%s:%s' % (_stable(k, depth + 1), _stable(x, depth + 1))
+                                 for k, x in v.items())) + '}'
+  if isinstance(v, (list, tuple)):
+    return '[' + ','.join(_stable(x, depth + 1) for x in v) + ']'
+  return re.sub(r' at 0x[0-9a-f]+', '', repr(v))
+
+
 def _canon(w):
   """Canonical hash of all mutable state the generators can reach."""
   h = hashlib.sha256()
@@ -265,7 +283,7 @@ def _canon(w):
   for name in sorted(w.rng.RNGS):
     g = w.rng.RNGS[name]
     h.update(name.encode())
-    h.update(repr(sorted((k, repr(v)) for k, v in vars(g).items())).encode())
+    h.update(repr(sorted((k, _stable(v)) for k, v in vars(g).items())).encode())
   mod = w.rng
   for k in sorted(vars(mod)):
     v = vars(mod)[k]
